@@ -4,7 +4,7 @@
    crate (process exit before the k-th I/O event, incl. between the index temp-file write, its
    fsync and the rename) judged by these acceptors. *)
 From W Require Import model.Base model.Engine model.EngineCfg spec.Queue spec.Crash proofs.CrashP proofs.EngineWF proofs.EngineInv proofs.EngineMain
-  proofs.EngineDisk proofs.EnginePos proofs.EngineNorm proofs.EngineReopen proofs.EngineC06 proofs.EngineALO2 proofs.EngineSince proofs.EngineSince2 proofs.EngineCrash proofs.EngineSinceR.
+  proofs.EngineDisk proofs.EnginePos proofs.EngineNorm proofs.EngineReopen proofs.EngineC06 proofs.EngineALO2 proofs.EngineSince proofs.EngineSince2 proofs.EngineCrash proofs.EngineSinceR proofs.EngineCrashA.
 
 Theorem c09_strict_acceptor_means : forall app deliv rec,
   c09_strict_one app deliv rec 0 = true -> outs_are (deliv ++ rec) app = true.
@@ -292,3 +292,46 @@ Check c09_alo_redelivery_bound_with_restarts : forall (c : Cfg) (n : N) (be : ba
               unread c (nrm x (get_ts (reopen c s) t)) = skipn k (l_app (lget g t)) /\
               cnt (get_ts (reopen c s) t) = N.of_nat (length (l_app (lget g t)) - k).
 Print Assumptions c09_alo_redelivery_bound_with_restarts.
+
+(* ANY mode (AtLeastOnce{n} in particular): crash points INSIDE a consuming read (read_next or batch read)
+   after any admissible restart-free history outside block-id drift.  Both crash images (old / new
+   persisted position; the rename is atomic) hold the acknowledged stream, and the consumer resumes at
+   or before the first entry not handed out, where the entries of the in-flight read count as handed
+   out (g'): nothing behind the in-flight read is skipped.  proofs/EngineCrashA.v *)
+Theorem c09_any_mode_crash_inside_consuming_read : forall (c : Cfg) (m : mode) (be : backend) (ops : list op) (o : op),
+  cfg_ok c -> Forall (op_ok c) ops -> consuming_read o = true ->
+  N.of_nat (length (offered_all ops)) <= u64_max -> sum_len (offered_all ops) <= u64_max ->
+  id_drift c (exec (env_of c m be) init ops) = false ->
+  let v := env_of c m be in
+  let s := exec v init ops in
+  let s' := fst (step v s o) in
+  let g := ledger_run [] (trace v init ops) in
+  let g' := ledger_step g o (snd (step v s o)) in
+  forall image, image = reopen c s \/ image = reopen c s' ->
+  forall t0 x,
+    stream (get_ts image t0) = l_app (lget g t0) /\
+    exists k, (k <= l_del (lget g' t0))%nat /\
+              unread c (nrm x (get_ts image t0)) = skipn k (l_app (lget g t0)).
+Proof. exact crash_inside_consuming_read_any_mode. Qed.
+
+Example c09_witness_crash_inside_alo_read :
+  consuming_read (OBatchRead tt 4096 true None) = true /\ consuming_read (ORead tt true) = true /\
+  id_drift small_cfg (exec (env_of small_cfg (ALO 3) Fd) init
+     [OAppend tt (en 0 3000); OAppend tt (en 1 3000); OAppend tt (en 2 10); ORead tt true; ORead tt true]) = false.
+Proof. vm_compute. repeat split. Qed.
+
+Check c09_any_mode_crash_inside_consuming_read : forall (c : Cfg) (m : mode) (be : backend) (ops : list op) (o : op),
+  cfg_ok c -> Forall (op_ok c) ops -> consuming_read o = true ->
+  N.of_nat (length (offered_all ops)) <= u64_max -> sum_len (offered_all ops) <= u64_max ->
+  id_drift c (exec (env_of c m be) init ops) = false ->
+  let v := env_of c m be in
+  let s := exec v init ops in
+  let s' := fst (step v s o) in
+  let g := ledger_run [] (trace v init ops) in
+  let g' := ledger_step g o (snd (step v s o)) in
+  forall image, image = reopen c s \/ image = reopen c s' ->
+  forall t0 x,
+    stream (get_ts image t0) = l_app (lget g t0) /\
+    exists k, (k <= l_del (lget g' t0))%nat /\
+              unread c (nrm x (get_ts image t0)) = skipn k (l_app (lget g t0)).
+Print Assumptions c09_any_mode_crash_inside_consuming_read.
